@@ -20,7 +20,9 @@ class Infeasible(Exception):
 class Ctx:
     """Preconditions + path condition + decision log for one symbolic run."""
 
-    def __init__(self, pre=(), decide_timeout=20, backend='z3old', fork=True, prefix=(), ints=()):
+    def __init__(self, pre=(), decide_timeout=20, backend='z3old', fork=True, prefix=(), ints=(), assume_undecided=False):
+        self.assume_undecided = assume_undecided
+        self.assumed = []
         self.inproc = None
         self.ints = tuple(ints)
         self.pre = list(pre)
@@ -99,6 +101,13 @@ class Ctx:
                 pass
             self.cache[key] = False
             return False
+        if (self.assume_undecided and rpos['verdict'] == 'sat' and rneg['verdict'] == 'unknown'):
+            # recorded assumption: the branch condition holds (its negation could not be refuted nor realised)
+            self.assumed.append(cond)
+            self.pc.append(cond)
+            self.cache.clear()
+            self.cache[key] = True
+            return True
         if rneg['verdict'] == 'unknown' or rpos['verdict'] == 'unknown':
             self.cache[key] = None
             raise Inconclusive(f"branch decision undecided ({rpos['verdict']}/{rneg['verdict']})")
